@@ -390,7 +390,8 @@ class C01(MotionMonitor):
                (2, "everything", mk(rel=True, inch=True, arcs=True, at=True, addregion=True, g28mid=True, retmove=True,
                                     spell=True, g92e_retracted=True)),
                (1.5, "exact-border", {}), (1.5, "arcs-under-g91", mk(rel=True, arcs=True, arcs_rel=True)),
-               (1.5, "g90-influences-extruder", mk(rel=True, arcs=True, at=True, g90e=True))]
+               (1.5, "g90-influences-extruder", mk(rel=True, arcs=True, at=True, g90e=True)),
+               (1, "g90-influences-extruder-inch", mk(rel=True, inch=True, g90e=True, p_inside=0.5))]
 
     def settings_for(self, rnd, feats):
         s = MotionMonitor.settings_for(self, rnd, feats)
@@ -499,6 +500,7 @@ class C05(ExtrusionMonitor):
                (2, "e-only-g92e", mk(g92e_retracted=True, g92e_entry=True, p_inside=0.5)), (1, "e-only-at", mk(at=True)),
                (2, "relative-extrusion", mk(rel=True, g90e=True, p_inside=0.5, g92e_retracted=True)),
                (1, "relative-extrusion-firmware", mk(rel=True, g90e=True, fw=True, p_inside=0.5)),
+               (1.5, "relative-extrusion-inch", mk(rel=True, inch=True, g90e=True, p_inside=0.5, g92e_retracted=True)),
                (1, "e-only-arcs", mk(arcs=True)), (2, "spelled", mk(spell=True, rel=True, p_inside=0.5)),
                (1, "spelled-firmware", mk(spell=True, fw=True, p_inside=0.5))]
 
